@@ -28,6 +28,9 @@ def run(ck):
     ck.rule("C07-O2", "the current size is size() of the open active file object, not a directory lookup or a position")
     ck.rule("C07-O3", "with L >= 1 every send evaluates the size check before the (single) write of the record")
     ck.rule("C07-O4", "a size rotation can always move the full file away: the rotated name is new (next index = 1 + maximum over every existing entry), else the rename fails and the active file keeps growing")
+    ck.rule("C07-O8", "the size limit given to the constructor is the limit the size check uses: it reaches the private object's member unchanged (evaluated by cases)")
+    from rules.rfs import limits_intact
+    limits_intact(ck, S, "C07-O8", "size")
     from rules.c09 import next_index, name_scheme
     next_index(ck, S, "C07-O4")
     name_scheme(ck, S, "C07-O4")      # ... and the scan sees the names the writer produces
@@ -141,6 +144,7 @@ def run(ck):
     ck.notes.append("rotateIfNeeded passes encoded length + %d to checkSizeRotation; whether the newline is counted in total is decided by the grid below" % c)
     # grid
     bad = []
+    maybe = []
     n = 0
     for cur, ln, L in itertools.product(range(0, 8), range(0, 7), range(1, 11)):
         add = ln + c
@@ -148,12 +152,47 @@ def run(ck):
             s = sym(x)
             return {"cur": cur, "add": add, "len": ln, "L": L}.get(s) if s else None
         leaf.fn = cs
-        live = rsite in g.live(g.projector(numeric_atom(cs, leaf)))
+        cleaf = S.count_leaf(3, extra=leaf)
+        cleaf.fn = cs
+        proj = g.projector(numeric_atom(cs, cleaf))
+        live = rsite in g.live(proj)
         need = cur >= 1 and cur + ln + 1 > L
         n += 1
         if need and not live:
             bad.append((cur, ln, L))
-    ck.ob("C07-O1", sitestr(cs, rot[0]), not bad, "%d grid points (current 0..7, length 0..6, L 1..10): rotate() is reached whenever current > 0 and current + length + 1 > L" % n if not bad else
+        elif need and not g.must_pass({rsite}, keep=proj):
+            maybe.append((cur, ln, L))
+    if maybe and not bad:
+        # rotate() can be reached but a guard that is not a function of (current, length, limit, file count) can also lead past it
+        known = {LF} | set(S.fields_for_count(3))
+        flds = {}
+        for b_ in g.blocks.values():
+            c_ = cs.nodes.get(b_.get("cond")) if b_.get("cond") is not None else None
+            for x in (walk(c_) if isinstance(c_, dict) else ()):
+                if x.get("k") == "member" and x.get("dk") == "field" and skip_copies(x.get("base") or {}).get("k") == "this" and strip_tmpl(x.get("name") or "") not in known:
+                    flds.setdefault(strip_tmpl(x["name"]), x)
+        definite = None
+        reach_cs = F.reachable_from([F.fns[cs.id] if cs.id in F.fns else cs], virtual=False)
+        for fq, node in flds.items():
+            ws = [(f_, n_, how_) for f_, n_, how_ in field_writes(F, fq)]
+            def value_false(f_, n_):
+                par = f_.nodes.get(f_.parent.get(n_["id"])) if n_.get("id") in f_.parent else None
+                rhs = par.get("rhs") if isinstance(par, dict) and par.get("k") == "binop" and par.get("op") == "=" else None
+                return isinstance(rhs, dict) and skip_copies(rhs).get("k") == "bool" and not skip_copies(rhs).get("v")
+            setters = [(f_, n_) for f_, n_, how_ in ws if how_ != "ctor-init" and f_.id in reach_cs and f_.id != cs.id and not value_false(f_, n_)]
+            clears = [(f_, n_) for f_, n_, how_ in ws if how_ != "ctor-init" and value_false(f_, n_) and f_.id != cs.id and (f_.id, n_["id"]) not in {(a.id, b["id"]) for a, b in setters}]
+            if setters and not clears:
+                definite = (fq, setters[0])
+        if definite:
+            fq, (sf, sn) = definite
+            ck.ob("C07-O1", sitestr(cs, rot[0]), False, "the size check is skipped while %s is set, and %s sets it during the rotation the check itself starts: the flag is still set when the next record arrives, which is "
+                  "appended unchecked - e.g. (current, length, L) = %s is not rotated" % (fq.split("::")[-1], strip_tmpl(sf.name).split("::")[-1] + "()", maybe[0]), key="checkSizeRotation|inequality")
+        else:
+            ck.ob("C07-O1", sitestr(cs, rot[0]), None, "a guard on %s lies between the size comparison and rotate(): for (current, length, L) = %s the rotation is needed but not certain" % (sorted(x.split("::")[-1] for x in flds) or "unrecognised state", maybe[0]),
+                  key="checkSizeRotation|inequality")
+        bad = None
+    if bad is not None:
+      ck.ob("C07-O1", sitestr(cs, rot[0]), not bad, "%d grid points (current 0..7, length 0..6, L 1..10): rotate() is reached whenever current > 0 and current + length + 1 > L" % n if not bad else
           "no rotation for (current, length, L) = %s: the file grows to %d > L bytes (the terminating newline or a boundary case is not counted)" % (bad[0], bad[0][0] + bad[0][1] + 1), key="checkSizeRotation|inequality")
     # ---- O2
     if counter and not cur_locals:
